@@ -231,7 +231,7 @@ func c02Judge(w *mon.W, c c02Case, full bool) {
 func c02Run(r *mon.Run) {
 	r.Rule("every (N1,N2,T) with N1+N2<=10 (thorough 14), T = nil, all-ones, every composition with >=2 parts; u on the half-integer grid -1..N1N2+1 plus 8 random reals; random large distributions up to 50+50 untied / 25+25 tied on 40 sampled grid points. Non-trivial: hits a class (K=2, leading tie group, tied non-palindromic, nil/all-ones T, feasibility edges); distinct by hash of (N1,N2,T,points).")
 	r.Assume("reference: subset enumeration (N<=14), 128-bit generating-function DP above, cross-checked at start-up")
-	r.Gate("recycled-T-buffer", "far-and-near-jump-points", "K=2", "leading-tie-group", "untied-u-above-centre", "untied-u-below-centre", "tied-u-below-feasible-min", "T=nil", "T=all-ones", "large-untied", "large-tied", "tied-n-reaches-25", "permuted-tie-vector-same-sizes", "corner-of-the-stated-range", "U-test-limit-variables-changed", "three-groups-large", "tie-vectors-as-rows-of-one-array", "tied-attainable-mass-below-1e-13")
+	r.Gate("recycled-T-buffer", "far-and-near-jump-points", "K=2", "leading-tie-group", "untied-u-above-centre", "untied-u-below-centre", "tied-u-below-feasible-min", "T=nil", "T=all-ones", "large-untied", "large-tied", "tied-n-reaches-25", "permuted-tie-vector-same-sizes", "corner-of-the-stated-range", "U-test-limit-variables-changed", "three-groups-large", "tie-vectors-as-rows-of-one-array", "tied-attainable-mass-below-1e-13", "one-tie-vector-slice-shared-by-concurrent-callers")
 	if err := ref.USelfTest(r.Pick(8, 9)); err != nil {
 		r.Inconclusive("reference self-test failed: " + err.Error())
 		return
@@ -293,7 +293,8 @@ func c02Run(r *mon.Run) {
 		w.Hit("recycled-T-buffer")
 		for round := 0; round < 3; round++ {
 			copy(buf, same[rng.Intn(len(same))])
-			c02Judge(w, c02Case{N1: n1, N2: N - n1, T: buf, Us: []float64{float64(rng.Intn(2*n1*(N-n1)+1)) / 2, rng.Uniform(0, float64(n1*(N-n1))), float64(n1*(N-n1)) / 2}}, false)
+			// (the caller's own buffer is what the library must see: no guard copy)
+			c02Judge(w, c02Case{N1: n1, N2: N - n1, T: buf, noGuard: true, Us: []float64{float64(rng.Intn(2*n1*(N-n1)+1)) / 2, rng.Uniform(0, float64(n1*(N-n1))), float64(n1*(N-n1)) / 2}}, false)
 		}
 		_ = k
 	})
@@ -400,6 +401,19 @@ func c02Run(r *mon.Run) {
 		max := c.N1 * c.N2
 		c.Us = []float64{float64(w.Rng.Intn(2*max+1)) / 2, float64(max) / 2, float64(max/2+w.Rng.Range(-20, 20)) / 1, float64(w.Rng.Intn(max + 1)), 0, float64(max)}
 		c02Judge(w, c, false)
+	})
+
+	// one tie-vector slice shared by the workers: eight vectors, each used
+	// (as the very same slice) by the cases that run side by side
+	sharedT := [][]int{{1, 2, 3, 4}, {4, 1, 1, 2, 2}, {2, 1, 5}, {1, 1, 2, 1, 3, 1}, {3, 3, 1, 2}, {1, 4, 2, 2, 1}, {2, 2, 2, 1, 1, 1}, {5, 1, 2, 3}}
+	r.Parallel("shared-T-across-workers", r.Pick(2000, 20000), func(w *mon.W, i int) {
+		rng := w.Rng
+		T := sharedT[(i/16)%len(sharedT)]
+		N := sumInts(T)
+		n1 := 1 + (i/128)%(N-1)
+		max := n1 * (N - n1)
+		w.Hit("one-tie-vector-slice-shared-by-concurrent-callers")
+		c02Judge(w, c02Case{N1: n1, N2: N - n1, T: T, noGuard: true, Us: []float64{float64(rng.Intn(2*max+1)) / 2, float64(max - rng.Intn(max/2+1)), float64(rng.Intn(max/2+1))}}, false)
 	})
 
 	// tie vectors kept as rows of one flat array (each row's capacity runs
